@@ -99,16 +99,22 @@ def cand_unelect(self: 'Candidate'):
     ensures(ghost('nE') == old(ghost('nE')) - 1)
 
 
-@contract('droop.candidate.Candidate.zeroVote', props=['C02'])
+@contract('droop.candidate.Candidate.zeroVote', props=['C02'], ledger=True)
 def cand_zero(self: 'Candidate'):
     ensures(self.vote == self.E.V0)
+    ensures(implies(in_election(self), ghost('T') == old(ghost('T')) - old(self.vote)), name='ledger: the total drops by what the candidate held')
+    ensures(implies(not_(in_election(self)), ghost('T') == old(ghost('T'))))
     modifies(self, 'vote')
+    modifies_ghost('T', 'Tm')
 
 
-@contract('droop.candidate.Candidate.addVote', props=['C02'])
+@contract('droop.candidate.Candidate.addVote', props=['C02'], ledger=True)
 def cand_add(self: 'Candidate', addValue: 'val'):
     ensures(self.vote == old(self.vote) + addValue)
+    ensures(implies(in_election(self), ghost('T') == old(ghost('T')) + addValue), name='ledger: the total grows by the value added')
+    ensures(implies(not_(in_election(self)), ghost('T') == old(ghost('T'))))
     modifies(self, 'vote')
+    modifies_ghost('T', 'Tm')
 
 
 @contract('droop.candidate.Candidate.surplus', props=['C02'])
